@@ -353,3 +353,14 @@ Theorem C03_pulled_value_is_newest_by_time_refuted :
 Proof. exists [(3, [(2%nat, 30)]); (1, [(2%nat, 10)])], 5. split; [|split; [left; reflexivity|vm_compute; reflexivity]].
        intros e [<-|[<-|[]]]; simpl; discriminate. Qed.
 Print Assumptions C03_pulled_value_is_newest_by_time_refuted.
+
+(* known finding F11, its core on the model of the output cache (get_outputs' cache fill and get_output_for, both tied to the source):
+   the cache is keyed by the integer time of a step, so the output of a later sub-step of the same time replaces that of the
+   earlier one; whoever reads the cache afterwards - for whatever tiered time - is given the later sub-step's value *)
+From MV Require Sched.F11.
+Theorem C03_cache_keeps_sub_steps_apart_refuted : forall dt ds i ot d1 d2,
+  d_cache dt = true -> pushes dt i = [] -> outputs (ds i) = [] ->
+  let ds' := put_outputs dt (put_outputs dt ds i ot d1) i ot d2 in
+  outputs (ds' i) = [(ot, d2)] /\ get_output_for (outputs (ds' i)) ot = d2.
+Proof. exact Sched.F11.cache_does_not_keep_sub_steps_apart. Qed.
+Print Assumptions C03_cache_keeps_sub_steps_apart_refuted.
